@@ -56,7 +56,7 @@ class Geometric(DPMechanism):
         if not isinstance(sensitivity, Integral):
             raise TypeError("Sensitivity must be an integer")
 
-        if sensitivity < 0:
+        if not sensitivity >= 0:
             raise ValueError("Sensitivity must be non-negative")
 
         return sensitivity
